@@ -303,6 +303,10 @@ class Recorder:
 
     def violation(self, name, details, key=None):
         """a violation established concretely against the real code (already a replay)"""
+        if self.replay_target is not None:
+            if name == self.replay_target[0]:
+                self.replay_outcome = dict(details)
+            return
         rep = dict(details)
         rep.update({"property": self.prop, "unit": self.unit, "obligation": name, "key": key or f"{self.unit}/{name}"})
         self.obligations.append({"name": name, "unit": self.unit, "verdict": "sat", "nontrivial": True})
